@@ -31,6 +31,7 @@ func (s State) clone() State {
 
 // VC is the verification context of one function under contract.
 type VC struct {
+	baseMem string
 	nonNil  map[string]bool
 	mem     map[string]*memNode  // memory versions by name
 	allocP  map[string][]string  // alloc term -> parent alloc terms (it is >= each of them)
